@@ -16,14 +16,6 @@ import (
 func partARun(r *eng.Run) {
 	p := newPartA(r)
 	gs := spread(groups(r.Thorough()))
-	if f := os.Getenv("C12_GROUP_LIMIT"); f != "" { // debugging aid: only the first k groups
-		var k int
-		fmt.Sscan(f, &k)
-		if k > 0 && k < len(gs) {
-			gs = gs[:k]
-			r.Incomplete("C12_GROUP_LIMIT set")
-		}
-	}
 	if d := r.DeadlineUnix(); d > 0 {
 		now := time.Now().Unix()
 		p.deadline = now + (d-now)*6/10 // part B gets the rest of the budget
@@ -39,6 +31,15 @@ func partARun(r *eng.Run) {
 	r.Set("partA_cases_per_group", perAPI)
 	r.Set("partA_option_groups", len(gs))
 	r.Set("partA_cases_declared", total)
+	if f := os.Getenv("C12_GROUP_LIMIT"); f != "" { // debugging aid: only the first k groups
+		var k int
+		fmt.Sscan(f, &k)
+		if k > 0 && k < len(gs) {
+			gs = gs[:k]
+			r.Incomplete("C12_GROUP_LIMIT set")
+		}
+	}
+
 	r.Set("partA_walk_shapes", len(p.dom.WalkShapes))
 	r.Set("partA_fetch_shapes", len(p.dom.FetchShapes))
 	r.Set("partA_handler_lists", len(handlerLists(r.Thorough())))
